@@ -238,18 +238,21 @@ func runExec(seed int64, r *rand.Rand, stay int, replay []uint8) runResult {
 	if err := builtInFunctions.SetPayableHandler(cont, payAll{}); err != nil {
 		exit2()
 	}
-	tokF, tokN := []byte("FUN-aaaaaa"), []byte("SFT-bbbbbb")
 	roleKey := func(tok []byte) []byte { return append([]byte("ELRONDroleesdt"), tok...) }
 	// task-private worlds
 	type taskState struct {
 		user, sc, far []byte
+		tokF, tokN    []byte // every task works with its own token identifiers
 		created       uint64
+		frozen        bool
 		kv            map[string][]byte
 	}
 	ts := make([]*taskState, nexec)
 	for t := 0; t < nexec; t++ {
-		st := &taskState{user: userAddr(t, 0), sc: scAddr(t, 0), far: userAddr(t, 1), kv: map[string][]byte{}}
+		st := &taskState{user: userAddr(t, 0), sc: scAddr(t, 0), far: userAddr(t, 1), kv: map[string][]byte{},
+			tokF: []byte(fmt.Sprintf("FUN-%06x", 0xa00000+t)), tokN: []byte(fmt.Sprintf("SFT-%06x", 0xb00000+t))}
 		ts[t] = st
+		tokF, tokN := st.tokF, st.tokN
 		u := acc.stores[t].get(st.user)
 		rolesF, _ := (&esdt.ESDTRoles{Roles: [][]byte{[]byte("ESDTRoleLocalMint"), []byte("ESDTRoleLocalBurn")}}).Marshal()
 		rolesN, _ := (&esdt.ESDTRoles{Roles: [][]byte{[]byte("ESDTRoleNFTCreate"), []byte("ESDTRoleNFTAddQuantity"), []byte("ESDTRoleNFTBurn"), []byte("ESDTRoleNFTAddURI"), []byte("ESDTRoleNFTUpdateAttributes")}}).Marshal()
@@ -265,7 +268,7 @@ func runExec(seed int64, r *rand.Rand, stay int, replay []uint8) runResult {
 	changes := make([]change, 0, K)
 	recs := make([][]execRec, nexec)
 	plans := make([][]string, nexec)
-	kindsAll := []string{"skv", "create", "adduri", "updattr", "mint", "lburn", "burn", "transfer", "nfttransfer", "multi", "addqty", "nftburn", "owner", "claim", "username"}
+	kindsAll := []string{"skv", "create", "adduri", "updattr", "mint", "lburn", "burn", "transfer", "nfttransfer", "multi", "addqty", "nftburn", "owner", "claim", "username", "freeze", "freeze", "roles"}
 	for t := 0; t < nexec; t++ {
 		n := 2 + r.Intn(8)
 		plans[t] = append(plans[t], "create")
@@ -315,9 +318,77 @@ func runExec(seed int64, r *rand.Rand, stay int, replay []uint8) runResult {
 		}
 		return 0
 	}
+	// control functions carry no price: their effect on the task's own account is checked instead
+	control := func(t int, fn string, rcv []byte, args [][]byte, dst vmcommon.UserAccountHandler, check func() string) execRec {
+		rec := execRec{fn: fn, charge: func(int) uint64 { return 0 }}
+		in := &vmcommon.ContractCallInput{VMInput: vmcommon.VMInput{CallerAddr: vmcommon.ESDTSCAddress, Arguments: args, CallValue: big.NewInt(0)}, RecipientAddr: rcv, Function: fn}
+		rec.invoke = simrt.Stamp()
+		bf, err := cont.Get(fn)
+		if err == nil {
+			var out *vmcommon.VMOutput
+			out, err = bf.ProcessBuiltinFunction(nil, dst, in)
+			if err == nil && out == nil {
+				err = errors.New("nil output")
+			}
+		}
+		rec.ret = simrt.Stamp()
+		if err != nil {
+			rec.err = err.Error()
+			return rec
+		}
+		if msg := check(); msg != "" {
+			rec.err = "wrong effect: " + msg
+		}
+		return rec
+	}
 	doOp := func(t int, op string, ar *rand.Rand) (execRec, bool) {
 		st := ts[t]
+		tokF, tokN := st.tokF, st.tokN
 		u := acc.stores[t].get(st.user)
+		if st.frozen {
+			switch op {
+			case "mint", "lburn", "burn", "transfer", "multi":
+				return execRec{}, false // the fungible entry is frozen: balance operations would be refused
+			}
+		}
+		switch op {
+		case "freeze":
+			key := "ELRONDesdt" + string(tokF)
+			other := "ELRONDesdt" + string(tokN) + "\x01"
+			otherBefore := append([]byte{}, u.storage[other]...)
+			fn := "ESDTFreeze"
+			if st.frozen {
+				fn = "ESDTUnFreeze"
+			}
+			st.frozen = !st.frozen
+			want := st.frozen
+			return control(t, fn, st.user, [][]byte{tokF}, u, func() string {
+				tok := &esdt.ESDigitalToken{}
+				if err := tok.Unmarshal(u.storage[key]); err != nil || len(u.storage[key]) == 0 {
+					return fmt.Sprintf("the entry of %s is gone or undecodable after %s", tokF, fn)
+				}
+				if got := len(tok.Properties) == 2 && tok.Properties[0]&1 != 0; got != want {
+					return fmt.Sprintf("frozen flag of %s is %v after %s", tokF, got, fn)
+				}
+				if !bytes.Equal(otherBefore, u.storage[other]) {
+					return fmt.Sprintf("%s changed the entry of another token", fn)
+				}
+				return ""
+			}), true
+		case "roles":
+			rk := string(roleKey(tokF))
+			before := append([]byte{}, u.storage[string(roleKey(tokN))]...)
+			return control(t, "ESDTSetRole", st.user, [][]byte{tokF, []byte(fmt.Sprintf("ESDTRoleExtra%d", ar.Intn(1000000)))}, u, func() string {
+				r := &esdt.ESDTRoles{}
+				if err := r.Unmarshal(u.storage[rk]); err != nil || len(r.Roles) < 3 {
+					return "the role list of the task's fungible token lost entries"
+				}
+				if !bytes.Equal(before, u.storage[string(roleKey(tokN))]) {
+					return "ESDTSetRole changed the role list of another token"
+				}
+				return ""
+			}), true
+		}
 		switch op {
 		case "skv":
 			npairs := 1 + ar.Intn(3)
@@ -495,7 +566,10 @@ func runExec(seed int64, r *rand.Rand, stay int, replay []uint8) runResult {
 	if nexec > 0 {
 		ar := rand.New(rand.NewSource(seed))
 		for _, op := range []string{"skv", "create", "mint", "nfttransfer"} {
-			rec, _ := doOp(0, op, ar)
+			rec, ok := doOp(0, op, ar)
+			if !ok {
+				continue
+			}
 			if rec.err != "" {
 				rr.viol = append(rr.viol, Violation{Seed: seed, Kind: "exec-failed", Detail: fmt.Sprintf("final sequential %s failed: %s", rec.fn, rec.err)})
 			} else if rec.charge(len(changes)) != rec.observed {
